@@ -419,8 +419,8 @@ Definition build_enum_field (st : sset) (f : field) (x : exts) : outcome (sset *
                      match lookup st1 k with
                      | Some (Linked (REnum _ _ _ opts _)) =>
                          lift (rbind (enum_in opts ins) (fun i => rbind (enum_notin opts notins) (fun n => ROk (Some (i, n)))))
-                     | Some (Linked _) => Panic "buildEnumFieldSchema: ref.To.(*EnumSchema) on a schema of another type"
-                     | _ => Panic "buildEnumFieldSchema: ref.To.(*EnumSchema) on a nil RootSchema"
+                     | Some (Linked _) => Panic "buildEnumFieldSchema: ref.To.(EnumSchema) on a schema of another type"
+                     | _ => Panic "buildEnumFieldSchema: ref.To.(EnumSchema) on a nil RootSchema"
                      end
                  | _ => Ok None
                  end) (fun rules =>
@@ -462,7 +462,13 @@ Definition psm_of_keys_field (m : msgd) : option psmopt :=
   match find (fun f => str_eqb (f_name f) s_keys) (m_fields m) with
   | Some f => match f_card f, f_ty f with
               | CMap _, _ => None
-              | _, TMsg full => match find_msg full with Some km => m_psm km | None => None end
+              | _, TMsg full =>
+                  match find_msg full with
+                  | Some km =>
+                      (* a keys message that states its part makes the embedding message no part at all *)
+                      match m_psm km with Some (PsmOpt _ (Some _)) => None | other => other end
+                  | None => None
+                  end
               | _, _ => None
               end
   | None => None
@@ -719,7 +725,7 @@ Fixpoint client_props (fuel : nat) (st : sset) (ps : list prop) : outcome (list 
                      obind (client_props f st cps) (fun children =>
                      obind (go r) (fun rest =>
                      Ok (map (fun c => match c with Prop_ j cp rq eo d s => Prop_ j (path ++ cp) rq eo d s end) children ++ rest)))
-                 | _ => Panic "ObjectField.Schema: Ref.To.(*ObjectSchema)"
+                 | _ => Panic "ObjectField.Schema: Ref.To.(ObjectSchema)"
                  end
              | _ => obind (go r) (fun rest => Ok (p :: rest))
              end
@@ -794,7 +800,7 @@ Definition message_factory (st : sset) (s : fschema) (f : field) : outcome unit 
           | Some m => obind (new_prop_set st (RObject n d e a ps) m) (fun _ => Ok tt)
           | None => Err "newPropSet: field not found"
           end
-      | _ => Panic "ObjectField.Schema: Ref.To.(*ObjectSchema)"
+      | _ => Panic "ObjectField.Schema: Ref.To.(ObjectSchema)"
       end
   | FOneof k _ _ _ =>
       match lookup st k with
@@ -803,13 +809,13 @@ Definition message_factory (st : sset) (s : fschema) (f : field) : outcome unit 
           | Some m => obind (new_prop_set st (ROneof n d ps) m) (fun _ => Ok tt)
           | None => Err "newPropSet: field not found"
           end
-      | _ => Panic "OneofField.Schema: Ref.To.(*OneofSchema)"
+      | _ => Panic "OneofField.Schema: Ref.To.(OneofSchema)"
       end
   | FAny _ _ _ =>
       (* anyFieldFactory.buildField panics on any other value type; the reader only yields FAny for these *)
       if str_eqb (value_full f) s_PbAny || str_eqb (value_full f) s_J5Any then Ok tt
       else Panic "anyFieldFactory.buildField: unsupported Any type"
-  | _ => Panic "newMessageFieldFactory: invalid schema for message field"
+  | _ => Err "newMessageFieldFactory: unsupported schema for message field"
   end.
 
 (* newFieldFactory *)
@@ -820,7 +826,7 @@ Definition leaf_factory (st : sset) (s : fschema) (f : field) : outcome unit :=
         (* reading the value goes through EnumField.Schema(), a type assertion of Ref.To to EnumSchema *)
         match lookup st k with
         | Some (Linked (REnum _ _ _ _ _)) => Ok tt
-        | _ => Panic "EnumField.Schema: Ref.To.(*EnumSchema)"
+        | _ => Panic "EnumField.Schema: Ref.To.(EnumSchema)"
         end
       else Err "EnumField is of another kind"
   | FScalar (Some (k, wkt)) _ =>
@@ -830,7 +836,7 @@ Definition leaf_factory (st : sset) (s : fschema) (f : field) : outcome unit :=
              else if str_eqb (value_full f) wkt then Ok tt else Err "ScalarField message is of another type"
       end
   | FScalar None _ => Err "exported scalar"
-  | _ => Panic "newFieldFactory: invalid schema for leaf field"
+  | _ => Err "newFieldFactory: unsupported schema for leaf field"
   end.
 
 (* buildProperty for a property whose value is set *)
@@ -881,7 +887,7 @@ Definition props_usable (st : sset) (m : msgd) (r : root) : outcome unit :=
                            | (p2, Some f2) :: r2 => obind (build_property st p2 f2) (fun _ => go2 r2)
                            | (_, None) :: r2 => Err "Reflection Bug: no proto field and not a oneof"
                            end) opfs) (fun _ => go rest))
-             | _ => Panic "OneofField.Schema: Ref.To.(*OneofSchema)"
+             | _ => Panic "OneofField.Schema: Ref.To.(OneofSchema)"
              end
          | _ => Err "Reflection Bug: no proto field and not a oneof"
          end
